@@ -118,8 +118,19 @@ void pictureCase(Ctx& ctx, uint32_t h, int pal, int pix)
 		auto ob = mc::guarded([&] { src.WriteIndexed(wb); });
 		if (ob.cls != 'R') { bad("save-standard-throws", ob.what); return; }
 		BitmapFile back2;
-		auto ol2 = mc::guarded([&] { back2 = loadFrom(drain(wb)); });
+		auto stdBytes = drain(wb);
+		auto ol2 = mc::guarded([&] { back2 = loadFrom(stdBytes); });
 		ctx.transition(2);
+		if (ol2.cls == 'R' && stdBytes.size() >= 54) {
+			// the same standard bitmap as most tools write it: the optional image size field holds the size of the pixel array
+			auto filled = stdBytes; mc::set32(filled, 34, uint32_t(filled.size() - mc::get32(filled, 10)));
+			BitmapFile back3; ref::RPicture seen3; std::string why3;
+			auto ol3 = mc::guarded([&] { back3 = loadFrom(filled); });
+			ctx.transition();
+			if (ol3.cls != 'R') { bad("load-standard-with-image-size-field-rejected", k2 + ": " + ol3.what); return; }
+			if (!visual(back3, seen3, why3) || !samePicture(seen3, p)) { bad("load-standard-with-image-size-field-different-picture", k2); return; }
+			ctx.count("pictures/standard-with-image-size-field");
+		}
 		if (ol2.cls != 'R') { bad("load-standard-rejected", k2 + ": " + ol2.what); return; }
 		ref::RPicture seen2;
 		if (!visual(back2, seen2, why)) { bad("load-standard-not-a-tileset-picture", why); return; }
@@ -195,7 +206,27 @@ void partialPaletteCase(Ctx& ctx, uint32_t h, std::size_t n, bool viaStandardBit
 	if (!visual(back, seen, why)) { ctx.violation("C09/partial-palette/load-custom-not-a-tileset-picture", key, why); return; }
 	bool same = seen.height == p.height && seen.rowsTopDown == p.rowsTopDown;
 	for (std::size_t i = 0; i < n && same; ++i) if (!(seen.palette[i] == p.palette[i])) same = false;
-	if (!same) ctx.violation("C09/partial-palette/load-custom-different-picture", key, "");
+	if (!same) { ctx.violation("C09/partial-palette/load-custom-different-picture", key, ""); return; }
+	if (src.palette.size() < 256 && !src.pixels.empty()) {
+		// the picture is edited after loading: one more colour is appended and used by the first pixel. Header fields that
+		// described the file it came from (the number of colours it declared) are not part of the picture
+		BitmapFile grown = src;
+		const std::size_t k = grown.palette.size();
+		Color extra; extra.red = 255; extra.green = 128; extra.blue = 1; extra.alpha = 0;
+		grown.palette.push_back(extra);
+		grown.pixels[0] = uint8_t(k);
+		Stream::DynamicMemoryWriter wg;
+		BitmapFile back4; ref::RPicture seen4; std::string why4;
+		auto og = mc::guarded([&] { Tileset::WriteCustomTileset(wg, grown); back4 = loadFrom(drain(wg)); });
+		ctx.transition(2);
+		if (og.cls != 'R') { ctx.violation("C09/partial-palette/edited-picture-save-or-load-throws", key, og.what); return; }
+		if (!visual(back4, seen4, why4)) { ctx.violation("C09/partial-palette/edited-picture-not-a-tileset-picture", key, why4); return; }
+		bool topDown = grown.imageHeader.height < 0;
+		std::size_t first = topDown ? 0 : std::size_t(32) * (std::size_t(h) - 1);
+		if (!(seen4.palette[k] == ref::RColor{ 255, 128, 1, 0 }) || seen4.rowsTopDown.size() <= first || seen4.rowsTopDown[first] != uint8_t(k))
+			ctx.violation("C09/partial-palette/colour-appended-after-loading-is-lost", key, "colour " + std::to_string(k) + " loaded back as (" + std::to_string(seen4.palette[k].r) + "," + std::to_string(seen4.palette[k].g) + "," + std::to_string(seen4.palette[k].b) + ")");
+		else ctx.count("partial-palette/edited-after-loading");
+	}
 	ctx.state(); ctx.trace();
 }
 
@@ -292,7 +323,7 @@ void build(Ctx& ctx)
 	gCases.clear();
 	// 2016 / 2048 / 2080 rows: the pixel section length 32*h passes 65535 (a 16-bit length computation shows there)
 	std::vector<uint32_t> hs = { 0, 32, 64, 96, 2016, 2048, 2080 };
-	if (ctx.thorough) { hs.push_back(128); hs.push_back(4096); hs.push_back(65536); hs.push_back(131072 + 32); }
+	if (ctx.thorough) { hs.push_back(128); hs.push_back(4096); hs.push_back(65536); hs.push_back(131072 + 32); hs.push_back(65536u * 32u); mc::alloc_cap = std::size_t(2) << 30; }   // up to 65536 tiles (64 MiB of pixels)
 	for (uint32_t h : hs) for (int pal = 0; pal < 3; ++pal) for (int pix = 0; pix < 2; ++pix) gCases.push_back({ 0, h, pal, pix });
 	gCases.push_back({ 1, 0, 0, 0 });
 	gCases.push_back({ 2, 0, 0, 0 });
@@ -318,5 +349,6 @@ int main(int argc, char** argv)
 	def.ncases = [](Ctx&) { return gCases.size(); };
 	def.run = runCase;
 	def.caseTimeoutS = 300;
+	def.fsizeLimit = std::size_t(256) << 20;   // a 65536-tile tileset file is 64 MiB
 	return mc::Main(argc, argv, def);
 }
